@@ -40,8 +40,11 @@ def search_cover(ctx):
     LEN = "len(a1.search)"
     want_end = {"none": "add(1, %s)" % LEN, "prefix": "sub(add(1, %s), len(a1.program.prefix as Some.0))" % LEN, "class": LEN}
     seen = set()
+    from ..lockstep import first_turn
     for p in ctx.walk(b).paths:
-        gs, r = summarize(p)
+        # each scan loop is met in its first turn, with the start position the first element its iterator yields
+        # (a range of indices and an enumerate/skip chain over the input read alike)
+        gs, r = summarize(first_turn(p))
         gs = [_sh(strip_ver(g)) for g in gs]
         r = _sh(strip_ver(r))
         loc = b.loc(p.blocks[-1])
@@ -62,20 +65,20 @@ def search_cover(ctx):
             _rec(d, "minlen-test", False, "the scan is entered without the test remaining length >= program.minimum_length (guards %s)" % gs[:3], loc)
             continue
         kind = "prefix" if "variant(a1.program.prefix)=Some" in gs else "class" if "variant(a1.program.initial_char_class)=Some" in gs else "none"
-        rng = [g for g in gs if g.startswith("variant(next(Range::Range{start: ")]
+        rng = [g for g in gs if g.startswith("variant(next(<")]
         if kind == "none" and "!check_preconditions(a1, a2)" in gs:
             _rec(d, "precondition-fail", r == "false", "failed preconditions must answer false", loc)
             continue
         if not rng:
             _rec(d, "loop|" + kind, False, "the %s scan is not an iteration over a Range of start positions" % kind, loc)
             continue
-        m = re.match(r"^variant\(next\(Range::Range\{start: (.*), end: (.*)\}\)\)=(Some|None)$", rng[0])
+        m = re.match(r"^variant\(next\(<(.*?)\.\.(.*)>\)\)=(Some|None)$", rng[0])
         seen.add(kind)
         _rec(d, "range|" + kind, m is not None and m.group(1) == "a2" and m.group(2) == want_end[kind], "the %s scan must range over start..%s; found %s" % (kind, want_end[kind], rng[0][13:120]), loc)
         if m and m.group(3) == "None":
             _rec(d, "exhausted|" + kind, r == "false", "exhausting the start positions must answer false", loc)
             continue
-        J = "next(Range::Range{start: a2, end: %s}) as Some.0" % want_end[kind]
+        J = "a2"  # the position tried in the first turn is the first of the range
         ma = [g for g in gs if g.lstrip("!").startswith("match_at(")]
         for g in ma:
             _rec(d, "match_at-arg|" + kind, g.lstrip("!") == "match_at(a1, %s, false)" % J, "match_at must be tried at the iterated position itself; found %s" % g[:120], loc)
